@@ -368,6 +368,9 @@ class DefaultOperatorResolver(OperatorResolver):
                     (power_term.factors[0].token if power_term else None) or Token(),
                     "The right-hand argument of `**` must be a positive integer.",
                 )
+            # Products of more than `len(arg)` terms repeat a term, and so add
+            # nothing new: huge exponents need not be enumerated (or overflow).
+            exponent = max(1, min(exponent, len(arg)))
             return OrderedSet(
                 functools.reduce(lambda x, y: x * y, term)
                 for term in itertools.product(*[arg] * exponent)
